@@ -21,6 +21,8 @@ type ReplaySpec struct {
 	Kind string // "step", "none"
 	Enc  *Encoding
 	Call string // Go statement that runs the real code (default cpu.Step())
+	Diff string // Go expression giving the difference mask (default vsStepDiff(...))
+	Intr bool   // the pending request is part of the pre-state
 	Note string
 }
 
@@ -43,39 +45,6 @@ func (r *Run) replayPath(oblig string) string {
 	return filepath.Join(r.Out, "replay", r.Prop+"-"+n+".json")
 }
 
-// cpuLeafAssignments emits Go statements that set every scalar leaf of the CPU
-// struct from the model.
-func (ld *Loaded) structAssignments(t types.Type, goPath, varPrefix string, model map[string]uint64, out *[]string) {
-	st, ok := t.Underlying().(*types.Struct)
-	if !ok {
-		return
-	}
-	for i := 0; i < st.NumFields(); i++ {
-		f := st.Field(i)
-		gp := goPath + "." + f.Name()
-		vn := varPrefix + "_" + f.Name()
-		switch u := f.Type().Underlying().(type) {
-		case *types.Struct:
-			ld.structAssignments(f.Type(), gp, vn, model, out)
-		case *types.Basic:
-			v, ok := model[vn]
-			if !ok {
-				continue
-			}
-			if u.Info()&types.IsBoolean != 0 {
-				*out = append(*out, fmt.Sprintf("%s = %v", gp, v != 0))
-			} else if u.Info()&types.IsInteger != 0 {
-				w, sg := intWidth(f.Type())
-				if sg {
-					*out = append(*out, fmt.Sprintf("%s = %d", gp, sext64(v, w)))
-				} else {
-					*out = append(*out, fmt.Sprintf("%s = 0x%x", gp, v))
-				}
-			}
-		}
-	}
-}
-
 func cells(model map[string]uint64, arr string) map[uint64]uint64 {
 	out := map[uint64]uint64{}
 	for k, v := range model {
@@ -88,69 +57,130 @@ func cells(model map[string]uint64, arr string) map[uint64]uint64 {
 	return out
 }
 
-// genStepReplay writes the test source for a Step-level counterexample.
-func (ld *Loaded) genStepReplay(model map[string]uint64, enc *Encoding, call string, idx int) string {
+// leafKinds: Go path of every scalar CPU leaf -> "bool" / "int" / "uint".
+func (ld *Loaded) leafKinds(t types.Type, gp string, out map[string]string) {
+	st, ok := t.Underlying().(*types.Struct)
+	if !ok {
+		return
+	}
+	for i := 0; i < st.NumFields(); i++ {
+		f := st.Field(i)
+		p := gp + "." + f.Name()
+		switch u := f.Type().Underlying().(type) {
+		case *types.Struct:
+			ld.leafKinds(f.Type(), p, out)
+		case *types.Basic:
+			switch {
+			case u.Info()&types.IsBoolean != 0:
+				out[p] = "bool"
+			case u.Info()&types.IsInteger != 0:
+				w, sg := intWidth(f.Type())
+				if sg {
+					out[p] = fmt.Sprintf("int%d", w)
+				} else {
+					out[p] = "uint"
+				}
+			}
+		}
+	}
+}
+
+// genStepReplay writes one replay case for a Step-level counterexample.
+func (ld *Loaded) genStepReplay(model map[string]uint64, rs *ReplaySpec, idx int) string {
 	var sb strings.Builder
 	fmt.Fprintf(&sb, "func vsReplayCase%d() {\n", idx)
 	sb.WriteString("\tg := new(VGhost)\n")
-	mem := cells(model, "G_Mem")
-	var ks []uint64
-	for k := range mem {
-		ks = append(ks, k)
+	emitCells := func(field, format string) {
+		m := cells(model, field)
+		var ks []uint64
+		for k := range m {
+			ks = append(ks, k)
+		}
+		sort.Slice(ks, func(i, j int) bool { return ks[i] < ks[j] })
+		for _, k := range ks {
+			fmt.Fprintf(&sb, format, field, k, m[k])
+		}
 	}
-	sort.Slice(ks, func(i, j int) bool { return ks[i] < ks[j] })
-	for _, k := range ks {
-		fmt.Fprintf(&sb, "\tg.Mem[0x%04x] = 0x%02x\n", k, mem[k])
-	}
-	iv := cells(model, "G_InVal")
-	ks = ks[:0]
-	for k := range iv {
-		ks = append(ks, k)
-	}
-	sort.Slice(ks, func(i, j int) bool { return ks[i] < ks[j] })
-	for _, k := range ks {
-		fmt.Fprintf(&sb, "\tg.InVal[0x%02x] = 0x%02x\n", k, iv[k])
-	}
+	emitCells("Mem", "\tg.%s[0x%04x] = 0x%02x\n")
+	emitCells("InVal", "\tg.%s[0x%02x] = 0x%02x\n")
 	sb.WriteString("\tcpu := &CPU{}\n")
-	var asg []string
-	ld.structAssignments(ld.pkgs[modPath].Type("CPU").Type(), "cpu", "cpu_", model, &asg)
-	for _, a := range asg {
-		sb.WriteString("\t" + a + "\n")
+	kinds := map[string]string{}
+	ld.leafKinds(ld.pkgs[modPath].Type("CPU").Type(), "cpu", kinds)
+	var paths []string
+	for p := range kinds {
+		paths = append(paths, p)
 	}
-	if enc != nil {
+	sort.Strings(paths)
+	for _, p := range paths {
+		v, ok := model["pre:"+p]
+		if !ok {
+			continue
+		}
+		switch k := kinds[p]; {
+		case k == "bool":
+			fmt.Fprintf(&sb, "\t%s = %v\n", p, v != 0)
+		case strings.HasPrefix(k, "int"):
+			var w int
+			fmt.Sscanf(k, "int%d", &w)
+			fmt.Fprintf(&sb, "\t%s = %d\n", p, sext64(v, w))
+		default:
+			fmt.Fprintf(&sb, "\t%s = 0x%x\n", p, v)
+		}
+	}
+	if rs.Enc != nil {
 		k := 0
-		for _, p := range enc.Pre {
+		for _, p := range rs.Enc.Pre {
 			fmt.Fprintf(&sb, "\tg.Mem[cpu.PC+%d] = 0x%02x\n", k, p)
 			k++
 		}
-		if enc.CBX {
+		if rs.Enc.CBX {
 			k++
 		}
-		fmt.Fprintf(&sb, "\tg.Mem[cpu.PC+%d] = 0x%02x\n", k, enc.Op)
+		fmt.Fprintf(&sb, "\tg.Mem[cpu.PC+%d] = 0x%02x\n", k, rs.Enc.Op)
 	}
 	sb.WriteString("\tcpu.Memory = &VsRecMem{G: g}\n")
-	if model["cpu__IO_isnil"] == 0 {
+	if model["nil:cpu.IO"] == 0 {
 		sb.WriteString("\tcpu.IO = &VsRecIO{G: g}\n")
 	}
-	if model["cpu__RETNHandler_isnil"] == 0 {
+	if model["nil:cpu.RETNHandler"] == 0 {
 		sb.WriteString("\tcpu.RETNHandler = &VsRecHandler{G: g}\n")
 	}
-	if model["cpu__RETIHandler_isnil"] == 0 {
+	if model["nil:cpu.RETIHandler"] == 0 {
 		sb.WriteString("\tcpu.RETIHandler = &VsRecHandler{G: g}\n")
 	}
+	if rs.Intr && model["nil:cpu.Interrupt"] == 0 {
+		n := model["intr:Len"]
+		if n > 8 {
+			n = 8 // cells beyond the first eight are not part of the model request
+		}
+		var bs []string
+		for k := uint64(0); k < n; k++ {
+			bs = append(bs, fmt.Sprintf("0x%02x", model[fmt.Sprintf("intr:Data:%d", k)]))
+		}
+		data := "nil"
+		if n > 0 {
+			data = "[]uint8{" + strings.Join(bs, ", ") + "}"
+		}
+		fmt.Fprintf(&sb, "\tcpu.Interrupt = &Interrupt{Type: InterruptType(%d), Data: %s}\n", sext64(model["intr:Type"], 64), data)
+	}
 	sb.WriteString("\toldCPU := *cpu\n\toldG := new(VGhost)\n\t*oldG = *g\n")
-	if model["cpu__Interrupt_isnil"] != 0 || true {
-		sb.WriteString("\tcpu.Interrupt = nil\n")
+	call := rs.Call
+	if call == "" {
+		call = "cpu.Step()"
+	}
+	diff := rs.Diff
+	if diff == "" {
+		diff = "vsStepDiff(cpu, &oldCPU, g, oldG)"
 	}
 	sb.WriteString("\tfunc() {\n\t\tdefer func() {\n\t\t\tif r := recover(); r != nil {\n\t\t\t\tfmt.Printf(\"REPLAY-PANIC %v\\n\", r)\n\t\t\t}\n\t\t}()\n")
 	sb.WriteString("\t\t" + call + "\n\t}()\n")
-	sb.WriteString("\td := vsExecDiff(cpu, &oldCPU, g, oldG)\n")
+	sb.WriteString("\td := " + diff + "\n")
 	sb.WriteString("\tfmt.Printf(\"REPLAY-PRE  %s\\n\", vsDescribe(&oldCPU))\n")
 	sb.WriteString("\tfmt.Printf(\"REPLAY-REAL %s\\n\", vsDescribe(cpu))\n")
 	sb.WriteString("\tfmt.Printf(\"REPLAY-SPEC %s\\n\", vsDescribeSpec(&oldCPU, oldG))\n")
 	sb.WriteString("\tfmt.Printf(\"REPLAY-ACCESS real: %s\\n\", vsDescribeBus(g, oldG))\n")
 	sb.WriteString("\tfmt.Printf(\"REPLAY-DIFFMASK 0x%x %s\\n\", d, vsCompNames(d))\n")
-	sb.WriteString("\tif cpu.Memory != oldCPU.Memory || cpu.IO != oldCPU.IO || cpu.RETNHandler != oldCPU.RETNHandler || cpu.RETIHandler != oldCPU.RETIHandler || cpu.Interrupt != oldCPU.Interrupt {\n\t\tfmt.Println(\"REPLAY-FRAME reference field changed\")\n\t}\n")
+	sb.WriteString("\tif cpu.Memory != oldCPU.Memory || cpu.IO != oldCPU.IO || cpu.RETNHandler != oldCPU.RETNHandler || cpu.RETIHandler != oldCPU.RETIHandler {\n\t\tfmt.Println(\"REPLAY-FRAME reference field changed\")\n\t}\n")
 	sb.WriteString("}\n")
 	return sb.String()
 }
@@ -210,11 +240,7 @@ func (r *Run) reportFailures(ld *Loaded, os_ []*OblResult, compMask func(string)
 			}
 		}
 		if o.Status == "failed" && o.vc != nil && o.vc.Replay != nil && o.res != nil && o.res.Model != nil && o.vc.Replay.Kind == "step" && len(cases) < 400 {
-			call := o.vc.Replay.Call
-			if call == "" {
-				call = "cpu.Step()"
-			}
-			src := ld.genStepReplay(o.res.Model, o.vc.Replay.Enc, call, i)
+			src := ld.genStepReplay(o.res.Model, o.vc.Replay, i)
 			rf.Test = src
 			body.WriteString(src)
 			cases = append(cases, i)
